@@ -160,17 +160,17 @@ INFO = {
         "rule": _RES_GEN,
         "rulefn": _poly_pair_rule,
         "trusted": ["Mathlib Polynomial.resultant (determinant of the Sylvester matrix) as the specification"],
-        "gaps": ["integer routine resultant_smart (subresultant PRS): equality with the Sylvester determinant for non-constant inputs rests on the exactness of its divisions (fundamental theorem of subresultants), which is not proved; the model carries an exactness flag for every truncated division and the check fails if it is ever false; every implementation value is compared with an independent Bareiss determinant of the explicitly built Sylvester matrix and with resultant_rational (for which the theorem is full)"],
+        "gaps": ["integer routine resultant_smart (subresultant PRS): proved equal to the Sylvester determinant for all inputs UNDER the hypothesis that every truncated division it performs is exact (smart_is_sylvester_partial); that the divisions are always exact is the fundamental theorem of subresultants and is not proved: the model carries the exactness flag and the check fails if it is ever false on an explored case; every implementation value is also compared with an independent Bareiss determinant and with resultant_rational (full theorem)"],
         "assumptions": [],
         "level_text": "Full theorem: the model of resultant_rational equals Mathlib's Sylvester-determinant resultant for all non-zero canonical rational polynomials; degenerate cases of the integer routine (zero, constants) proved; scaling law proved on the specification. The subresultant routine itself is tied to the code by differential testing with an exactness flag on every division and certified per explored case against an independent Sylvester determinant.",
-        "level_note": "Trusted: Lean kernel + 3 standard axioms; Mathlib resultant; correspondence coverage. Partial: resultant_smart on non-constant inputs is certified per explored case (exactness flag + Bareiss determinant), not proved.",
+        "level_note": "Trusted: Lean kernel + 3 standard axioms; Mathlib resultant; correspondence coverage. Partial: resultant_smart = Sylvester determinant is a theorem conditional on the exactness flag, which is asserted per explored case.",
     },
     "C05": {
         "cli": True,
         "rule": _RES_GEN + " For C05: f of degree >= 1, repeated factors, every residue of deg mod 4; metamorphic ops x->x+c, x->-x, disc(f g).",
         "rulefn": _poly_pair_rule,
         "trusted": ["Mathlib Polynomial.resultant as the specification of Res(f, f')"],
-        "gaps": ["discriminant value = (-1)^(n(n-1)/2) Res(f,f')/lc(f): inherits the subresultant gap of C04; certified per explored case against the Sylvester determinant of (f, f'), plus the three metamorphic laws and 'zero iff gcd(f,f') non-constant' evaluated on the implementation"],
+        "gaps": ["discriminant(f) = Mathlib Polynomial.discr is a theorem for all f of degree >= 1 conditional on the exactness flag (as C04); the flag is asserted on every explored case, and every value is compared with the Sylvester determinant of (f, f'), plus the three metamorphic laws and 'zero iff gcd(f,f') non-constant' evaluated on the implementation"],
         "assumptions": ["deg f >= 1 (constants and zero are mirrored by the model and skipped by the oracle)"],
         "level_text": "Theorems: the sign rule deg%4 in {2,3} <=> (-1)^(n(n-1)/2) = -1 for every n, the degree-1 case, refusal of the zero polynomial. The general value is certified per explored case (Sylvester determinant oracle, exactness flag) and by the metamorphic laws of the property.",
         "level_note": "Trusted: Lean kernel + 3 standard axioms; correspondence coverage. Partial: as C04.",
